@@ -17,8 +17,10 @@ PY = "/venv/bin/python"
 args = sys.argv[1:]
 jobs = int(args[args.index("--jobs") + 1]) if "--jobs" in args else 2
 only = args[args.index("--only") + 1] if "--only" in args else ""
+match = args[args.index("--match") + 1] if "--match" in args else ""
 PROPS = ["C%02d" % i for i in range(1, 21)]
-SEEDED = "/verif/seeded"
+ROOT = os.path.dirname(os.path.dirname(os.path.abspath(__file__)))
+SEEDED = os.path.join(ROOT, "seeded")
 
 
 def run_one(name):
@@ -36,7 +38,7 @@ def run_one(name):
         env = dict(os.environ, ZCVERIF_REPO=wt, ZCVERIF_JOBS="8")
         for p in PROPS:
             r = subprocess.run([PY, "-m", "zcverif.run", "check", p,
-                                "--tier", "quick"], cwd="/verif", env=env,
+                                "--tier", "quick"], cwd=ROOT, env=env,
                                capture_output=True, text=True)
             row[p] = r.returncode
         return name, row
@@ -49,10 +51,10 @@ def run_one(name):
 def main():
     names = sorted(n for n in os.listdir(SEEDED)
                    if os.path.exists(os.path.join(SEEDED, n, "patch.diff"))
-                   and n.startswith(only))
+                   and n.startswith(only) and match in n)
     result = {}
     path = os.path.join(SEEDED, "matrix.json")
-    if os.path.exists(path) and only:
+    if os.path.exists(path) and (only or match):
         result = json.load(open(path))
     with concurrent.futures.ThreadPoolExecutor(jobs) as ex:
         for name, row in ex.map(run_one, names):
@@ -60,9 +62,9 @@ def main():
             print(name, "".join("X" if row.get(p) == 1 else
                                 "?" if row.get(p) == 2 else "."
                                 for p in PROPS), flush=True)
-    subprocess.run(["git", "checkout", "--", "evidence"], cwd="/verif",
+    subprocess.run(["git", "checkout", "--", "evidence"], cwd=ROOT,
                    capture_output=True)
-    shutil.rmtree("/verif/replays", ignore_errors=True)
+    shutil.rmtree(os.path.join(ROOT, "replays"), ignore_errors=True)
     json.dump(result, open(path, "w"), indent=1, sort_keys=True)
     out = ["# Seeded changes x quick checks", "",
            "X = the check exits 1 (violation reported), . = exit 0, "
